@@ -5,6 +5,9 @@ CONSTANTS
   Quarters = {0, 1, 2, 4}
   Kinds = {"Scan", "Scanner", "MapScan", "SliceMap"}
   ManualQuarters = {1}
+  Plans <- GenPlans
   AllVariants = TRUE
+  MultiEvery = 1
+  MultiPlans = 2
 INVARIANT Emit
 CHECK_DEADLOCK FALSE
